@@ -218,6 +218,10 @@ pub struct World {
     pub n_syscalls: u64,
     pub fd_reuse: u64,
     pub ever_used_fds: Vec<bool>,
+    /// connections whose client is a *spinning sender*: whenever the server has taken bytes from the
+    /// socket, the client has already put more in (conn, bytes injected so far). This is the one
+    /// place where a client acts *inside* a library call: at the server's receive system calls.
+    pub firehose: Vec<(usize, u64)>,
     pub faults_fired: u64,
 }
 
@@ -276,6 +280,7 @@ impl World {
             n_syscalls: 0,
             fd_reuse: 0,
             ever_used_fds: Vec::new(),
+            firehose: Vec::new(),
             faults_fired: 0,
         }
     }
@@ -682,6 +687,9 @@ impl World {
             Ok(v) => {
                 self.conns[conn].srv_read += v.len() as u64;
                 self.push_log(LogEntry::Read { conn, fd, res: Ok(v.len()) });
+                if !self.firehose.is_empty() {
+                    self.firehose_top_up(conn);
+                }
                 Ok(Some(v))
             }
         }
@@ -727,6 +735,46 @@ impl World {
         }
         self.push_log(LogEntry::Write { conn, fd, len: buf.len(), res: Ok(done) });
         Ok(Some(done))
+    }
+
+    /// what a spinning sender sends: header lines without end (the request never completes)
+    pub const FIREHOSE_UNIT: &'static [u8] = b"A: b\r\n";
+
+    /// the client of `conn` becomes a spinning sender from now on
+    pub fn firehose_start(&mut self, conn: usize) {
+        if !self.firehose.iter().any(|f| f.0 == conn) {
+            self.firehose.push((conn, 0));
+        }
+        self.firehose_top_up(conn);
+    }
+
+    pub fn firehose_stop(&mut self, conn: usize) {
+        self.firehose.retain(|f| f.0 != conn);
+    }
+
+    pub fn firehose_injected(&self, conn: usize) -> u64 {
+        self.firehose.iter().find(|f| f.0 == conn).map(|f| f.1).unwrap_or(0)
+    }
+
+    /// fill the server's receive queue of `conn` to the brim again
+    fn firehose_top_up(&mut self, conn: usize) {
+        let k = match self.firehose.iter().position(|f| f.0 == conn) {
+            Some(k) => k,
+            None => return,
+        };
+        let mut injected = self.firehose[k].1;
+        {
+            let (me, peer) = self.ends(conn, true);
+            if !me.open || !peer.open || me.shutdown & RCV_SHUTDOWN != 0 {
+                return;
+            }
+            while me.rx.len() < me.rx_cap {
+                me.rx.push_back(Self::FIREHOSE_UNIT[(injected % Self::FIREHOSE_UNIT.len() as u64) as usize]);
+                injected += 1;
+            }
+            me.activity += 1;
+        }
+        self.firehose[k].1 = injected;
     }
 
     /// `recv(fd, .., flags)` issued by number (raw libc call): MSG_PEEK leaves the data queued and is
